@@ -59,6 +59,12 @@ def truthy : Val → Except Err Bool
   | int i => .ok (i != 0)
   | _ => .error .shape
 
+/-- A mask flag must be a boolean (the combinator's type check rejects anything else): 0 / 1. -/
+def asFlag : Val → Except Err Bool
+  | int 0 => .ok false
+  | int 1 => .ok true
+  | _ => .error .shape
+
 end Val
 
 /-- Keys are paths of naturals below a root: `fold_in(k, i) = split(k, n)[i] = child k i`
